@@ -395,7 +395,7 @@ type c12APICase struct {
 	Side  int    `json:"side"`
 }
 
-var c12APIKinds = []string{"close-then-io", "double-close", "write-after-closewrite", "early-closewrite", "failed-handshake-sticky", "early-appdata", "cancel", "write-error-sticky", "deadline-mid-record", "fatal-after-closewrite"}
+var c12APIKinds = []string{"close-then-io", "double-close", "write-after-closewrite", "early-closewrite", "failed-handshake-sticky", "early-appdata", "cancel", "write-error-sticky", "deadline-mid-record", "fatal-after-closewrite", "failed-closewrite"}
 
 func c12RunAPI(c c12APICase) (sig, msg string, nt bool) {
 	buf := make([]byte, 32)
@@ -619,6 +619,40 @@ func c12RunAPI(c c12APICase) (sig, msg string, nt bool) {
 			return "delivered-after-failed-write", fmt.Sprintf("peer received %d bytes that are no prefix of the failed payload (read error %v)", len(got), rerr), true
 		}
 		return "", "", true
+	case "failed-closewrite":
+		// CloseWrite whose close_notify does not get through (the link fails after J bytes of that
+		// transport write; later transport writes work again): the write side was shut down all the same -
+		// later Writes must fail and put nothing on the wire that the peer could take for data.
+		cli, srv, sim, err := c12Established(c.Suite)
+		if err != nil {
+			return "honest-failed", err.Error(), false
+		}
+		x, y, xe := cli, srv, sim.ends[0]
+		if c.Side == 1 {
+			x, y, xe = srv, cli, sim.ends[1]
+		}
+		if _, err := x.Write([]byte("before")); err != nil {
+			return "honest-failed", err.Error(), false
+		}
+		sim.mu.Lock()
+		xe.partialAt, xe.partialN = xe.nWrites, []int{0, 3, 5, 20}[c.J%4]
+		sim.mu.Unlock()
+		err1 := x.CloseWrite()
+		if err1 == nil {
+			return "closewrite-error-lost", "the transport write carrying close_notify failed, CloseWrite returned nil", true
+		}
+		x.SetWriteDeadline(time.Time{})
+		for i := 0; i < 3; i++ {
+			if n, err := x.Write([]byte("after the failed CloseWrite")); err == nil || n != 0 {
+				return "write-after-failed-closewrite", fmt.Sprintf("Write %d after a CloseWrite that failed with %v returned (%d, %v)", i+1, err1, n, err), true
+			}
+		}
+		x.Close()
+		got, _ := io.ReadAll(y)
+		if !bytes.HasPrefix([]byte("before"), got) {
+			return "delivered-after-failed-closewrite", fmt.Sprintf("peer received %q", got), true
+		}
+		return "", "", true
 	case "early-closewrite":
 		ccfg, scfg := vfBaseConfigs(c.Suite, false)
 		sim := vfNewStream()
@@ -714,12 +748,27 @@ func c12RunAPI(c c12APICase) (sig, msg string, nt bool) {
 		if c.Side == 1 {
 			x, y = srv, cli
 		}
-		ctx, cancel := context.WithCancel(context.Background())
+		// J / 1000 selects the kind of context: 0 WithCancel, 1 WithTimeout(1 h) cancelled explicitly,
+		// 2 WithDeadline(1 h) child of a parent that is cancelled
+		var ctx context.Context
+		var cancel context.CancelFunc
+		switch c.J / 1000 {
+		case 1:
+			ctx, cancel = context.WithTimeout(context.Background(), time.Hour)
+		case 2:
+			parent, pcancel := context.WithCancel(context.Background())
+			var ccancel context.CancelFunc
+			ctx, ccancel = context.WithDeadline(parent, time.Now().Add(time.Hour))
+			defer ccancel()
+			cancel = pcancel
+		default:
+			ctx, cancel = context.WithCancel(context.Background())
+		}
 		defer cancel()
 		ops := 0
 		fired := false
 		end := sim.ends[c.Side]
-		after := c.J >= 100 // J >= 100: cancel when operation J-100 has been carried out (its data delivered) instead of before it
+		after := c.J%1000 >= 100 // J >= 100: cancel when operation J-100 has been carried out (its data delivered) instead of before it
 		target := c.J % 100
 		hook := func(int) {
 			if ops == target && !fired {
@@ -872,7 +921,7 @@ func TestVF_C12(t *testing.T) {
 	}
 	recB.SetExhaustive(vfThorough(), fmt.Sprintf("%d alert cases (5 levels x 256 codes x 2 roles in the thorough tier)", j))
 
-	recC := vfRec("C12", "C12c-api", "API histories: Close then Read/Write, double Close, Write after CloseWrite (read half still usable, peer sees EOF), CloseWrite before completion, failed handshake stays failed (Handshake, Read, Write), application data injected in the clear before every record of the handshake, context cancellation before and right after every transport operation of the handshake (including the last one), five kinds of record that must be fatal arriving at a reader that has or has not called CloseWrite (error reported and kept, nothing behind it delivered), a read deadline that expires with 1..6, 40 or 200 bytes of a record arrived and is then extended (the rest arrives: data whole; the transport ends: unexpected EOF), a Write failing on a transport write timeout (before the first / between the records of one payload) must stay failed after the deadline is cleared and the peer sees only a prefix; both sides, suites GCM and CBC; distinct = the case")
+	recC := vfRec("C12", "C12c-api", "API histories (contexts: WithCancel, WithTimeout cancelled explicitly, WithDeadline under a cancelled parent; CloseWrite whose close_notify is cut off by a link failure): Close then Read/Write, double Close, Write after CloseWrite (read half still usable, peer sees EOF), CloseWrite before completion, failed handshake stays failed (Handshake, Read, Write), application data injected in the clear before every record of the handshake, context cancellation before and right after every transport operation of the handshake (including the last one), five kinds of record that must be fatal arriving at a reader that has or has not called CloseWrite (error reported and kept, nothing behind it delivered), a read deadline that expires with 1..6, 40 or 200 bytes of a record arrived and is then extended (the rest arrives: data whole; the transport ends: unexpected EOF), a Write failing on a transport write timeout (before the first / between the records of one payload) must stay failed after the deadline is cleared and the peer sees only a prefix; both sides, suites GCM and CBC; distinct = the case")
 	k := 0
 	for _, suite := range suites {
 		for side := 0; side < 2; side++ {
@@ -891,12 +940,17 @@ func TestVF_C12(t *testing.T) {
 					maxJ = 15
 				case "fatal-after-closewrite":
 					maxJ = 9
+				case "failed-closewrite":
+					maxJ = 3
 				}
 				js := []int{}
 				for jj := 0; jj <= maxJ; jj++ {
 					js = append(js, jj)
 					if kind == "cancel" {
 						js = append(js, 100+jj)
+						if jj%3 == 1 {
+							js = append(js, 1000+jj, 2000+jj, 1100+jj)
+						}
 					}
 				}
 				for _, jj := range js {
